@@ -552,3 +552,46 @@ pub fn normalize_ids(s: &str) -> String {
     }
     out
 }
+
+
+/// every local instance reachable from the roots through resolved calls (roots first)
+pub fn reachable_instances<'tcx>(tcx: TyCtxt<'tcx>) -> Vec<(Instance<'tcx>, TypingEnv<'tcx>)> {
+    let roots = mono_roots(tcx);
+    let mut seen: BTreeSet<String> = BTreeSet::new();
+    let mut out = Vec::new();
+    let mut queue: VecDeque<(Instance<'tcx>, TypingEnv<'tcx>)> = VecDeque::new();
+    for r in &roots {
+        if seen.insert(inst_name(tcx, r.0)) {
+            queue.push_back(*r);
+        }
+    }
+    while let Some((inst, env)) = queue.pop_front() {
+        if !tcx.is_closure_like(inst.def_id()) {
+            out.push((inst, env));
+        }
+        let Some(body) = mono_body(tcx, inst, env) else { continue };
+        for data in body.basic_blocks.iter() {
+            for st in &data.statements {
+                if let mir::StatementKind::Assign(b) = &st.kind {
+                    if let mir::Rvalue::Aggregate(k, _) = &b.1 {
+                        if let mir::AggregateKind::Closure(def, cargs) = &**k {
+                            let ci = Instance::resolve_closure(tcx, *def, cargs, cargs.as_closure().kind());
+                            if seen.insert(inst_name(tcx, ci) + "#closure") {
+                                queue.push_back((ci, env));
+                            }
+                        }
+                    }
+                }
+            }
+            let Some(term) = &data.terminator else { continue };
+            if let TerminatorKind::Call { func, .. } = &term.kind {
+                if let Some((_, _, Some(ri))) = resolve_callee(tcx, env, &body, func) {
+                    if is_local_inst(ri) && !tcx.is_closure_like(ri.def_id()) && seen.insert(inst_name(tcx, ri)) {
+                        queue.push_back((ri, env));
+                    }
+                }
+            }
+        }
+    }
+    out
+}
